@@ -246,6 +246,20 @@ def run(prog: Program, ctx: Ctx) -> None:  # noqa: PLR0912,PLR0915
             ctx.ob("R1", f"section-value|{val}", not extra, f"`{val}` section value types {sorted(wt)} within schema {sorted(st)}" if not extra else
                    f"`{val}` section value serialises as {sorted(extra)} but the schema only allows {sorted(st)}", f"{c.module.relpath}:{c.node.lineno}")
     ctx.expect_min("R1", len(written), 14)
+    # what as_dict really puts under "kind" for each section class (the writer evaluated on an empty section)
+    from sa.absint import Interp as _Interp
+    from sa.absint import Obj as _Obj
+    from sa.absint import Raised as _Raised
+
+    its = _Interp(prog)
+    for val, c in sorted(written.items()):
+        sec_obj = _Obj(c, {"value": [], "title": None}, label=c.name)
+        try:
+            d = its.call(prog.lookup_method(c, "as_dict")[0], sec_obj)
+            got_kind = d.get("kind") if isinstance(d, dict) else repr(d)
+        except _Raised as r:
+            got_kind = f"raises {r.exc}"
+        ctx.ob("R1", f"section-kind-written|{val}", got_kind in enum_vals and got_kind == val, f"{c.name}.as_dict() writes kind {got_kind!r}; the schema lists {val!r}", f"{c.module.relpath}:{c.node.lineno}")
     swk = writer_keys(prog, base)
     for r in sec.get("required", []):
         ctx.ob("R1", f"section|required|{r}", r in swk and swk[r].always, f"section dicts always carry `{r}`", loc)
@@ -270,6 +284,30 @@ def run(prog: Program, ctx: Ctx) -> None:  # noqa: PLR0912,PLR0915
         "relative_package_filepath": "defensive raise: the loader derives every module's file from its package's own directories, so one of the "
                                      "package directories is always a prefix (no failing input exists for trees loaded from disk)",
     }
+    # the tabled claim is backed by a table: the getter evaluated on the layouts the loader produces
+    from pathlib import PurePosixPath as _PP
+
+    itg = _Interp(prog)
+    mcls = prog.cls(f"{M}.Module")
+    rpf = prog.lookup_method(mcls, "relative_package_filepath")[0]
+    layouts = {
+        "module of a regular package": (_PP("/s/pkg/__init__.py"), _PP("/s/pkg/sub/m.py"), "pkg/sub/m.py"),
+        "regular package itself": (_PP("/s/pkg/__init__.py"), _PP("/s/pkg/__init__.py"), "pkg/__init__.py"),
+        "module in the second portion of a namespace package": ([_PP("/p1/nsp"), _PP("/p2/nsp")], _PP("/p2/nsp/m.py"), "nsp/m.py"),
+        "namespace package itself": ([_PP("/p1/nsp"), _PP("/p2/nsp")], [_PP("/p1/nsp"), _PP("/p2/nsp")], "nsp"),
+        "namespace sub-package present in both portions": ([_PP("/p1/nsp"), _PP("/p2/nsp")], [_PP("/p1/nsp/plugins"), _PP("/p2/nsp/plugins")], "nsp/plugins"),
+        "namespace sub-package present in the second portion only": ([_PP("/p1/nsp"), _PP("/p2/nsp")], [_PP("/p2/nsp/plugins/ext")], "nsp/plugins/ext"),
+        "namespace sub-package present in the first portion only": ([_PP("/p1/nsp"), _PP("/p2/nsp")], [_PP("/p1/nsp/plugins")], "nsp/plugins"),
+    }
+    for label, (pkg_path, own_path, want) in layouts.items():
+        package = _Obj(mcls, {"name": "top", "_filepath": pkg_path, "parent": None}, label="package")
+        package.attrs["package"] = package
+        me = package if own_path is pkg_path or own_path == pkg_path else _Obj(mcls, {"name": "x", "_filepath": own_path, "parent": package, "package": package}, label="module")
+        try:
+            got = str(itg.getattr(me, "relative_package_filepath"))
+        except _Raised as r:
+            got = f"raises {r.exc}"
+        ctx.ob("R2", f"relative_package_filepath|{label}", got == want, f"{label}: relative_package_filepath = {got}; expected {want}", where(rpf))
     for k, m in getters:
         esc = {e: r for e, r in ef.escapes(m).items() if r.fn == m.qualname}  # raised by the getter itself
         if esc and m.name in TABLED_GETTERS:
